@@ -4,6 +4,7 @@ mod util;
 mod e_asm;
 mod vmrun;
 mod e_vm;
+mod e_graph;
 
 fn main() {
     // panics of the implementation are caught and reported as outcomes; keep stderr quiet
@@ -14,6 +15,7 @@ fn main() {
         "fx" => e_asm::run_fx(&a),
         "mapped" => e_asm::run_mapped(&a),
         "vm" => e_vm::run(&a),
+        "graph" => e_graph::run(&a),
         other => { eprintln!("unknown engine {other}"); std::process::exit(2); }
     }
 }
